@@ -6,7 +6,10 @@ Property theorems only; the model is `Ivy/L3/Work.lean` (an LTS whose actions ar
 `iv_work.c`), the invariant `Inv` is in `Ivy/L3/WorkSpec.lean`, the proofs in `Ivy/L3/WorkProofs.lean`.
 `Reach max s`: s is reachable from a fresh pool with `max_threads = max` by *any* sequence of actions, i.e. for
 every interleaving of owner, workers and clock, every submission program (bursts, submissions from completions,
-continuations from work functions), every timing of idle-timeout expiry.  Worker threads and the owner thread
+continuations from work functions of this pool — `submitc k` — and from any other thread that is not the owner, e.g. a
+worker of ANOTHER pool — `submitf`), every timing of idle-timeout expiry.  Environment contract, all of it: no submission
+after `iv_work_pool_put` (guard `handle = true` of `submit`/`submitc`/`submitf`), no `put` while a submission is in
+progress (a submission is one atomic action).  Model of the code after the D10 repair (see Work.lean, History).  Worker threads and the owner thread
 are distinct by construction: `wEnter k`/`wAfter k` are steps of worker thread k, `oComplete` is a step of the owner.
 -/
 namespace Ivy.Props.C12
@@ -46,15 +49,26 @@ theorem item_order {s s' : St} {a : Act} (h : Inv s) (hs : step s a = some s') {
 theorem concurrency {s : St} (h : Inv s) : runCount s ≤ s.started ∧ s.started ≤ s.max := Proofs.running_le_started h
 
 /-- WorkOwed (strong form): while work is queued some worker is *responsible*: starting up, inside got_event, or
-with its kick owed in a way the idle timeout cannot cancel (not on the idle list, or marked `kicked`). -/
-theorem work_owed_resp {s : St} (h : Inv s) (hq : s.queue ≠ []) : ∃ k, k < s.nw ∧ Resp s k := h.owed hq
+with its kick owed in a way the idle timeout cannot cancel (not on the idle list, or marked `kicked`); or the pool has
+no worker thread at all and `thread_needed` is owed to the owner or being handled by it.
+(Statement changed when the foreign submitter was added: the second alternative is new.  The old statement is false in
+ANY faithful model with that submitter, e.g. in the state after `submitf` on a fresh pool: an item queued, no worker.
+The old statement still holds whenever a worker thread exists: `work_owed_resp_live`.) -/
+theorem work_owed_resp {s : St} (h : Inv s) (hq : s.queue ≠ []) :
+    (∃ k, k < s.nw ∧ Resp s k) ∨ (s.started = 0 ∧ (s.tnOwed = true ∨ s.owner = .tnPre)) := h.owed hq
+
+/-- The former statement of `work_owed_resp`, valid while at least one worker thread exists. -/
+theorem work_owed_resp_live {s : St} (h : Inv s) (hpos : 0 < s.started) (hq : s.queue ≠ []) : ∃ k, k < s.nw ∧ Resp s k :=
+  Proofs.owed_live h hpos hq
 
 /-- WorkOwed as stated in the design: `work_items ≠ [] →` some worker is inside got_event, or has its kick owed,
-or a thread is starting, or thread_needed is owed. -/
+or a thread is starting, or thread_needed is owed — or (new with the foreign submitter: the only thing owed may be
+thread_needed, and the flag is cleared when the owner's loop takes the event) its handler has been invoked and has not
+yet taken the pool lock. -/
 theorem work_owed {s : St} (h : Inv s) (hq : s.queue ≠ []) :
     (∃ k, k < s.nw ∧ ((s.w k).pc = .gotPre ∨ (s.w k).pc.isRunning = true)) ∨
     (∃ k, k < s.nw ∧ (s.w k).kickOwed = true) ∨
-    (∃ k, k < s.nw ∧ ((s.w k).pc = .starting ∨ (s.w k).pc = .selfkick)) ∨ s.tnOwed = true :=
+    (∃ k, k < s.nw ∧ ((s.w k).pc = .starting ∨ (s.w k).pc = .selfkick)) ∨ s.tnOwed = true ∨ s.owner = .tnPre :=
   Proofs.work_owed_weak h hq
 
 /-- The `iv_fatal` calls of iv_work.c (die on a kicked or still-listed thread) and the timer misuse they guard
@@ -67,6 +81,37 @@ new submissions, `put`, or an idle timeout could happen), every item ever submit
 (`kicked`), for every timing of worker start-up, idleness and saturation. -/
 theorem no_lost_work {s : St} (h : Inv s) (hst : Stuck s) : ∀ i, i < s.ni → (s.it i).phase = .completed :=
   Proofs.no_lost_work h hst
+
+/-- What `iv_work_pool_submit_continuation` does when called by a thread that is neither the owner nor a worker of
+this pool inside a work function (`iv_work_submit_pool` with `called_from_owner_thread = 0`): allowed exactly while the
+pool has not been put; the item gets the next number and goes to the tail of `work_items`; no thread is started by the
+caller; the first idle worker is marked `kicked` and its kick posted, else below `max_threads` `thread_needed` is
+posted, else (at the maximum, nobody idle) nothing is posted. -/
+theorem foreign_submit_effect {s s' : St} (h : Inv s) (hs : step s .submitf = some s') :
+    s.shut = false ∧ s'.ni = s.ni + 1 ∧ s'.queue = s.queue ++ [s.ni] ∧ (s'.it s.ni).phase = .queued ∧
+    (s'.it s.ni).workRuns = 0 ∧ s'.nw = s.nw ∧ s'.started = s.started ∧ s'.freed = false ∧
+    ((∃ t rest, s.idle = t :: rest ∧ (s'.w t).kicked = true ∧ (s'.w t).kickOwed = true) ∨
+     (s.idle = [] ∧ s.started < s.max ∧ s'.tnOwed = true) ∨
+     (s.idle = [] ∧ s.started = s.max ∧ s'.tnOwed = s.tnOwed)) := Proofs.submitf_effect h hs
+
+/-- No lost foreign continuation (same quiescence formulation as `no_lost_work`): an item submitted by a foreign
+thread to a pool that has not been put, followed by ANY continuation of the run (`ReachFrom`: every interleaving, more
+submissions from any thread, `put` at any later moment, idle timeouts): in every state in which the library can do
+nothing more, that item has been run exactly once by a worker and completed exactly once by the owner. -/
+theorem foreign_continuation_runs {s s' t : St} (h : Inv s) (hs : step s .submitf = some s')
+    (hr : ReachFrom s' t) (hst : Stuck t) :
+    s.ni < t.ni ∧ (t.it s.ni).phase = .completed ∧ (t.it s.ni).workRuns = 1 ∧ (t.it s.ni).complRuns = 1 :=
+  Proofs.foreign_continuation_runs h hs hr hst
+
+/-- ... and at every moment before that, while the item (any item) is still queued, it is owed a worker: the pool is not
+freed, and some worker is responsible for the queue, or no worker thread exists, `thread_needed` is owed to the owner
+(or its handler is running) and the handler will find `idle_threads` empty and `started_threads < max_threads`, i.e.
+will start a thread. -/
+theorem queued_item_owed {s : St} (h : Inv s) {i : Nat} (hi : i < s.ni) (hp : (s.it i).phase = .queued) :
+    s.freed = false ∧
+    ((∃ k, k < s.nw ∧ Resp s k) ∨
+     (s.started = 0 ∧ s.idle = [] ∧ s.started < s.max ∧ (s.tnOwed = true ∨ s.owner = .tnPre))) :=
+  Proofs.queued_owed h hi hp
 
 /-- NULL pool: the invariant holds initially and is kept by every action of the thread. -/
 theorem null_pool_inv {s : LSt} (hr : LReach s) : LInv s := Proofs.lreach_inv hr
@@ -94,5 +139,18 @@ function (no idle thread, no new thread, no kick sent): the worker leaves with w
 example :
     (([Act.submit, .wStart 0, .wSelfKick 0, .wKick 0, .wEnter 0, .submit, .wAfter 0] : List Act).foldlM step (St.init 1)).map
       (fun s => s.queue == [1] && (s.w 0).pc == .parked && (s.w 0).kickOwed && s.idle == []) = some true := by decide
+
+/-- Non-vacuity of the foreign submitter: max_threads = 2, a thread that is not the owner submits to a pool without
+any worker (only `thread_needed` is posted, no thread started by the caller); the owner's handler starts worker 0, which
+runs the item; a second foreign submission while worker 0 is parked idle kicks it (`kicked`), it runs that one too. -/
+example :
+    (([Act.submitf, .oTn, .oTnRun, .wStart 0, .wSelfKick 0, .wKick 0, .wEnter 0, .wAfter 0, .submitf, .wKick 0, .wEnter 0,
+       .wAfter 0, .oEv, .oSteal, .oComplete, .oComplete, .oFinish] : List Act).foldlM step (St.init 2)).map
+      (fun s => s.ni == 2 && (s.it 0).phase == .completed && (s.it 1).phase == .completed && (s.it 1).workRuns == 1 &&
+                s.nw == 1 && s.started == 1 && s.idle == [0] && !s.tnOwed) = some true := by decide
+
+example :
+    (([Act.submitf] : List Act).foldlM step (St.init 2)).map
+      (fun s => s.queue == [0] && s.nw == 0 && s.started == 0 && s.tnOwed) = some true := by decide
 
 end Ivy.Props.C12
